@@ -63,6 +63,8 @@ func runOverlayTest(repo, pkg, srcFile, asName, test, workDir string, extraEnv [
 	return string(out), err
 }
 
+var standinMemo = map[string]standinResult{}
+
 func runStandins(w *World, repo, verif, prop, tier string, seed int) []standinResult {
 	b, err := os.ReadFile(filepath.Join(verif, "standin", "registry.json"))
 	if err != nil {
@@ -80,6 +82,12 @@ func runStandins(w *World, repo, verif, prop, tier string, seed int) []standinRe
 	for _, s := range specs {
 		if !hasProp(s.Props, prop) {
 			continue
+		}
+		if memoOn {
+			if r, ok := standinMemo[s.Name+"|"+tier]; ok {
+				res = append(res, r)
+				continue
+			}
 		}
 		t0 := time.Now()
 		r := standinResult{Name: s.Name, Function: s.Function}
@@ -109,6 +117,9 @@ func runStandins(w *World, repo, verif, prop, tier string, seed int) []standinRe
 				what = "the function did not terminate within the time limit on some input of the bound"
 			}
 			r.Violations = append(r.Violations, standinViolation{Input: "", Text: what + fmt.Sprintf(" (%v)", rerr), Output: tail})
+		}
+		if memoOn {
+			standinMemo[s.Name+"|"+tier] = r
 		}
 		res = append(res, r)
 	}
